@@ -51,6 +51,21 @@ def gen_obligations(g, P):
         try:
             if c.get('virtual'):
                 obs, info = g.refinement(q)
+            elif c.get('instances'):        # the same function under several ground pre/post pairs (finite domains enumerated)
+                obs, info = [], None
+                for tag, req, ens in c['instances']:
+                    c2 = dict(c)
+                    c2['requires'] = list(c.get('requires', [])) + list(req)
+                    c2['ensures'] = list(c.get('ensures', [])) + list(ens)
+                    g.contracts[q] = c2
+                    try:
+                        o2, info = g.run(q)
+                    finally:
+                        g.contracts[q] = c
+                    for o in o2:
+                        o.name = o.name.replace('/', f'[{tag}]/', 1)
+                    obs += o2
+                info['n'] = len(obs)
             else:
                 obs, info = g.run(q)
             obligs += obs
